@@ -3,6 +3,9 @@ import Hdc.Model.Smooth
 import Hdc.Model.Stats
 import Hdc.Model.Discrete
 import Hdc.Py
+import Hdc.Model.PyDate
+import Hdc.Model.Bounds
+import Hdc.Gen.Dekad
 /-
 Line-protocol driver: one case per input line, one answer per output line.
   <kernel> <F|Q> <args...>      numeric kernels at Float (binary64, values as 16-hex-digit bit
@@ -242,11 +245,150 @@ def runDiscrete (k : String) (args : List String) : Option String := do
     let t ← decArr (α := Int) t; let g ← decArr (α := Nat) g; let ng ← Codec.dec (α := Nat) ng
     let b ← Codec.dec (α := Int) b; let e ← Codec.dec (α := Int) e
     pure s!"ok {encPairs (calIndicesGrp t g ng b e)}"
+  | "ord2ymd", [n] =>
+    let n ← Codec.dec (α := Int) n
+    let (y, m, d) := PyDate.ord2ymd n
+    pure s!"ok {y} {m} {d}"
+  | "ymd2ord", [y, m, d] =>
+    let y ← Codec.dec (α := Int) y; let m ← Codec.dec (α := Int) m; let d ← Codec.dec (α := Int) d
+    pure s!"ok {PyDate.ymd2ord y m d}"
+  | "dekad", [y, m, d] =>
+    -- everything the class reports for the dekad of a date
+    let y ← Codec.dec (α := Int) y; let m ← Codec.dec (α := Int) m; let d ← Codec.dec (α := Int) d
+    let r := Gen.Dekad.ofDate y m d
+    let showDT := fun (e : Except Py.PyErr PyDate.DateTime) => match e with
+      | .ok t => let (yy, mm, dd) := t.ymd; s!"{yy}-{mm}-{dd}+{t.us}"
+      | .error k => s!"err:{repr k}"
+    let nd := match Gen.Dekad.ndays r with | .ok k => toString k | .error k => s!"err:{repr k}"
+    pure s!"ok {r} {Gen.Dekad.year r} {Gen.Dekad.month r} {Gen.Dekad.day r} {Gen.Dekad.idx r} {Gen.Dekad.yidx r} {Gen.Dekad.str r} {showDT (Gen.Dekad.start_date r)} {showDT (Gen.Dekad.end_date r)} {nd}"
+  | "dekadraw", [r] =>
+    let r ← Codec.dec (α := Int) r
+    let showDT := fun (e : Except Py.PyErr PyDate.DateTime) => match e with
+      | .ok t => let (yy, mm, dd) := t.ymd; s!"{yy}-{mm}-{dd}+{t.us}"
+      | .error k => s!"err:{repr k}"
+    let nd := match Gen.Dekad.ndays r with | .ok k => toString k | .error k => s!"err:{repr k}"
+    let back := match Gen.Dekad.ofStr (Gen.Dekad.str r) with | .ok k => toString k | .error k => s!"err:{repr k}"
+    pure s!"ok {Gen.Dekad.year r} {Gen.Dekad.month r} {Gen.Dekad.day r} {Gen.Dekad.idx r} {Gen.Dekad.yidx r} {Gen.Dekad.str r} {showDT (Gen.Dekad.start_date r)} {showDT (Gen.Dekad.end_date r)} {nd} {back}"
+  | "dekadstr", [lbl] =>
+    match Gen.Dekad.ofStr lbl with
+    | .ok r => pure s!"ok {r}"
+    | .error k => pure s!"err {repr k}"
+  | "trace", kind :: rest =>
+    let showT := fun (t : List Bounds.Acc) =>
+      "ok [" ++ ",".intercalate (t.map fun a => s!"{a.arr}:{a.idx}:{a.len}:{if a.write then 1 else 0}") ++ "]"
+    match kind, rest with
+    | "ws2d", [n] => do let n ← Codec.dec (α := Nat) n; pure (showT (Bounds.ws2dTrace n))
+    | "tscatter", [n, t] => do let n ← Codec.dec (α := Nat) n; let t ← decArr (α := Int) t; pure (showT (Bounds.tinterpScatter n t))
+    | "truns", [l, n] => do let l ← decArr (α := Int) l; let n ← Codec.dec (α := Nat) n; pure (showT (Bounds.tinterpRuns l n))
+    | "zonal", [p, z, nz, nd, znd] => do
+      let p ← decArr (α := Int) p; let z ← decArr (α := Int) z; let nz ← Codec.dec (α := Nat) nz
+      let nd ← Codec.dec (α := Int) nd; let znd ← Codec.dec (α := Int) znd
+      pure (showT (Bounds.zonalTrace p z nz nd znd))
+    | "rolling", [n, w] => do let n ← Codec.dec (α := Nat) n; let w ← Codec.dec (α := Int) w; pure (showT (Bounds.rollingTrace n w))
+    | "vcurve", [m, nl] => do let m ← Codec.dec (α := Nat) m; let nl ← Codec.dec (α := Nat) nl; pure (showT (Bounds.vcurveTrace m nl))
+    | _, _ => none
+  | "spiwindow", [t, b, e] =>
+    let t ← decArr (α := Int) t
+    let b : Option Int ← if b == "none" then pure none else (Codec.dec (α := Int) b).map some
+    let e : Option Int ← if e == "none" then pure none else (Codec.dec (α := Int) e).map some
+    let attrs := match b, e with
+      | some b, some e => let (x, y) := spiAttrs t b e; s!"{x} {y}"
+      | _, _ => "- -"
+    match spiWindow t b e with
+    | .ok (i, j) => pure s!"ok {i} {j} {attrs}"
+    | .error _ => pure "err ValueError"
+  | "spiwindowgrp", [t, g, ng, b, e] =>
+    let t ← decArr (α := Int) t; let g ← decArr (α := Nat) g; let ng ← Codec.dec (α := Nat) ng
+    let b : Option Int ← if b == "none" then pure none else (Codec.dec (α := Int) b).map some
+    let e : Option Int ← if e == "none" then pure none else (Codec.dec (α := Int) e).map some
+    match spiWindowGrp t g ng b e with
+    | .ok ws => pure s!"ok {encPairs ws}"
+    | .error _ => pure "err ValueError"
   | "linspace", [x] =>
     let x ← decArr (α := Int) x
     let (idx, keys) := toLinspace x
     pure s!"ok {encArr idx} {encArr keys}"
   | _, _ => none
+
+/-! ## SPI with an external oracle for digamma / gammainc / ndtri (interactive: `? name args` -> answer line) -/
+
+def askOracle (out inp : IO.FS.Stream) (name : String) (args : List Float) : IO Float := do
+  out.putStrLn ("? " ++ name ++ " " ++ " ".intercalate (args.map Codec.enc))
+  out.flush
+  let line ← inp.getLine
+  match Codec.dec (α := Float) line.trimAscii.toString with
+  | some v => pure v
+  | none => throw (IO.userError s!"bad oracle answer: {line}")
+
+/-- `brentq` of the model with `f a = log a - digamma a - s`, digamma asked from the oracle.
+    Uses the model's own `brentStep`; only the evaluation of `f` at the new abscissa is external. -/
+def brentIO (out inp : IO.FS.Stream) (xa xb s : Float) : IO Float := do
+  let f := fun (a : Float) => do
+    let dg ← askOracle out inp "digamma" [a]
+    pure (Float.log a - dg - s)
+  let fpre ← f xa
+  let fcur ← f xb
+  if 0 < fpre * fcur then return 0
+  if eqv fpre 0 then return xa
+  if eqv fcur 0 then return xb
+  let mut st : BState Float := ⟨xa, xb, 0, fpre, fcur, 0, 0, 0⟩
+  for _ in [0:100] do
+    match brentStep (fun _ => (0 : Float)) 2e-12 8.881784197001252e-16 st with
+    | .inl x => return x
+    | .inr s' =>
+      let v ← f s'.xcur
+      st := { s' with fcur := v }
+  return st.xcur
+
+def lookup2 (tbl : List ((Float × Float) × Float)) (a b : Float) : Float :=
+  match tbl.find? (fun e => e.1.1.toBits == a.toBits && e.1.2.toBits == b.toBits) with
+  | some e => e.2
+  | none => 0.0 / 0.0
+
+def lookup1 (tbl : List (Float × Float)) (a : Float) : Float :=
+  match tbl.find? (fun e => e.1.toBits == a.toBits) with
+  | some e => e.2
+  | none => 0.0 / 0.0
+
+/-- SPI of one series at Float through the pure model `gammastd`, special functions from the oracle -/
+def spiIO (out inp : IO.FS.Stream) (x : List Float) (nd : Float) (cs ce : Nat) : IO String := do
+  let base : GamFns Float := { log := Float.log, sqrt := Float.sqrt, root := fun _ _ _ => 0, gammainc := fun _ v => v,
+                               ndtri := fun v => v, c04 := 0.4, c09 := 0.9 }
+  let win := (x.drop cs).take (ce - cs)
+  -- the arguments the model passes to the root finder, read off by making `root` return them
+  let xa := (gammafit { base with root := fun a _ _ => a } win).1
+  let xb := (gammafit { base with root := fun _ b _ => b } win).1
+  let s := (gammafit { base with root := fun _ _ c => c } win).1
+  let a ← if eqv xa 0 && eqv xb 0 then pure 0.0 else brentIO out inp xa xb s
+  let F1 : GamFns Float := { base with root := fun _ _ _ => a }
+  let (alpha, beta) := gammafit F1 win
+  -- gammainc arguments: valid cells v / beta
+  let mut tinc : List ((Float × Float) × Float) := []
+  if !(eqv alpha 0) && !(eqv beta 0) then
+    for v in x do
+      if !(eqv v nd) && !(v < 0) then
+        let arg := v / beta
+        if (tinc.find? (fun e => e.1.2.toBits == arg.toBits)).isNone then
+          let g ← askOracle out inp "gammainc" [alpha, arg]
+          tinc := ((alpha, arg), g) :: tinc
+  let tincF := tinc
+  let F2 : GamFns Float := { F1 with gammainc := lookup2 tincF }
+  -- ndtri arguments: run the pure model with ndtri = id
+  let pre := gammastd F2 x nd cs ce
+  let mut tnd : List (Float × Float) := []
+  for o in pre do
+    match o with
+    | some p =>
+      if (tnd.find? (fun e => e.1.toBits == p.toBits)).isNone then
+        let q ← askOracle out inp "ndtri" [p]
+        tnd := (p, q) :: tnd
+    | none => pure ()
+  let tndF := tnd
+  let F3 : GamFns Float := { F2 with ndtri := lookup1 tndF }
+  let res := gammastd F3 x nd cs ce
+  let cells := res.map fun o => spiCell Py.roundHalfEvenFloat (-32768.0) 32767.0 1000.0 nd o
+  let raw := res.map fun o => match o with | some v => v | none => nd
+  pure s!"ok {encArr cells} {encArr raw} {Codec.enc alpha} {Codec.enc beta}"
 
 def step (line : String) : String :=
   let toks := (line.trimAscii.toString.splitOn " ").filter (· ≠ "")
@@ -259,7 +401,16 @@ def step (line : String) : String :=
 partial def loop (h : IO.FS.Stream) (out : IO.FS.Stream) : IO Unit := do
   let line ← h.getLine
   if line.isEmpty then return ()
-  out.putStrLn (step line)
+  let toks := (line.trimAscii.toString.splitOn " ").filter (· ≠ "")
+  match toks with
+  | ["spi", "F", x, nd, cs, ce] =>
+    match decArr (α := Float) x, Codec.dec (α := Float) nd, cs.toNat?, ce.toNat? with
+    | some x, some nd, some cs, some ce =>
+      let r ← spiIO out h x nd cs ce
+      out.putStrLn r
+    | _, _, _, _ => out.putStrLn "err bad-op"
+  | _ => out.putStrLn (step line)
+  out.flush
   loop h out
 
 def main : IO Unit := do
